@@ -42,6 +42,8 @@ def image(prog, outcalls, outcome):
             m[key] = {'args': list(args), 'kwargs': dict(kwargs)}
     if outcome[0] == 'ret':
         m[OP_KEY] = {'args': [outcome[1]], 'kwargs': {}}
+    elif outcome[0] == 'interrupt':
+        pass    # cut short by an interrupt-style exception: the operation produced neither a result nor an exception
     else:
         m[OP_KEY] = ('EXC', outcome[1])
     return m
@@ -185,6 +187,8 @@ def run_pair(ctx, case):
             res['r'] = PS.execute(cls2, P2)
             if res['r'][0] == 'exc':
                 raise res['r'][2]
+            # (an edited program may no longer swallow a replayed interrupt-style exception; the harness' playback
+            # function contains it, so that play() returns what was captured until then)
 
         try:
             pb = rec.play(rid, playback_function)
@@ -195,7 +199,7 @@ def run_pair(ctx, case):
             raise Violation('playback function did not run', 'replay')
         if rep[0] == 'exc' and rep[1] not in ('Err', 'OperationExceptionDuringPlayback'):
             raise Violation('replayed operation raised %s: %r' % (rep[1], rep[2]), 'replay-raises')
-        rep_outcome = rep if rep[0] == 'ret' else ('exc', 'Err')
+        rep_outcome = rep if rep[0] == 'ret' else ('interrupt',) if rep[0] == 'interrupt' else ('exc', 'Err')
         want_rec = image(P, W.outcalls, live)
         want_pb = image(P2, W2.outcalls, rep_outcome)
         got_rec = norm(outputs_map(pb.recorded_outputs, 'recorded_outputs'))
@@ -238,7 +242,7 @@ edit = st.fixed_dictionaries({
 def cases():
     progs = PS.programs(values=V.small_values, in_behs=('ret', 'ret', 'raise'),
                         out_extra={'fail_missing': st.just(False), 'default': st.none()},
-                        extractors=('none', 'none', 'ok', 'calls_output'))
+                        extractors=('none', 'none', 'ok', 'calls_output'), swallowed_interrupts=True)
     priors = st.lists(st.sampled_from(['failed_replay', 'ok_replay', 'pf_raises']), max_size=2)
     return st.fixed_dictionaries({'prog': progs, 'prior': st.one_of(st.just([]), st.just([]), priors), 'edits': st.one_of(st.just([]), st.lists(edit, min_size=1, max_size=3), st.lists(edit, min_size=1, max_size=3)),
                                   'cassette': st.sampled_from(['memory', 'memory', 'file', 's3', 'async'])})
